@@ -537,8 +537,151 @@ fn run_one(cfg: Config, bound: usize, cap_exec: u64) -> RunOut {
     total
 }
 
+// ---------------------------------------------------------------------------------------------
+// The real priority listener task (priority_listener::spawn_listener) on a tokio current-thread
+// runtime, with the hook's yield decisions enumerated: at every switch point of the hub (lock
+// acquisition, publish loop) the hook answers "yield" or "go on"; every decision vector with at most
+// k yields is executed. Three datagrams are sent back to back; a subscriber of priority.window must
+// receive their events in arrival order.
+
+struct ListenerRun {
+    order: Vec<u64>,
+    points: usize,
+}
+
+fn listener_run(decisions: &[bool]) -> Result<ListenerRun, String> {
+    use srtla_core::priority::{CriticalWindow, DATAGRAM_LEN, PROTO_MAGIC};
+    use std::cell::Cell;
+    let rt = tokio::runtime::Builder::new_current_thread().enable_all().build().map_err(|e| e.to_string())?;
+    // a free port of this process's slice (the listener binds by address and does not report its port)
+    let port = {
+        let base = 30_000 + crate::world::port_slice().unwrap_or(0) as u16 * 60;
+        let mut p = None;
+        for k in 0..60u16 {
+            if std::net::UdpSocket::bind(("127.0.0.1", base + k)).is_ok() {
+                p = Some(base + k);
+                break;
+            }
+        }
+        p.ok_or("no free port for the priority listener")?
+    };
+    let addr: std::net::SocketAddr = ([127, 0, 0, 1], port).into();
+    let count = Rc::new(Cell::new(0usize));
+    let c2 = count.clone();
+    let dec: Vec<bool> = decisions.to_vec();
+    srtla_send::verif_hooks::install(Some(Box::new(move |_tag| {
+        let i = c2.get();
+        c2.set(i + 1);
+        dec.get(i).copied().unwrap_or(false)
+    })));
+    let r = rt.block_on(async {
+        let hub = SubscriptionHub::new();
+        let (tx, mut rx) = mpsc::channel::<String>(16);
+        let _id = hub.subscribe("priority.window", tx).await;
+        let handle = srtla_send::priority_listener::spawn_listener(addr, CriticalWindow::new(), Some(hub.clone()));
+        // let the listener bind
+        for _ in 0..20 {
+            tokio::task::yield_now().await;
+        }
+        let sender = std::net::UdpSocket::bind("127.0.0.1:0").map_err(|e| e.to_string())?;
+        for i in 1..=3u32 {
+            let mut d = [0u8; DATAGRAM_LEN];
+            d[0] = PROTO_MAGIC;
+            d[1..5].copy_from_slice(&(100 * i).to_be_bytes());
+            sender.send_to(&d, addr).map_err(|e| e.to_string())?;
+        }
+        let mut order = Vec::new();
+        for _ in 0..3 {
+            match tokio::time::timeout(std::time::Duration::from_millis(500), rx.recv()).await {
+                Ok(Some(line)) => {
+                    let v: Value = serde_json::from_str(&line).unwrap_or(Value::Null);
+                    order.push(v["params"]["data"]["window_ms"].as_u64().unwrap_or(0));
+                }
+                _ => break,
+            }
+        }
+        handle.abort();
+        Ok::<Vec<u64>, String>(order)
+    });
+    srtla_send::verif_hooks::install(None);
+    let order = r?;
+    Ok(ListenerRun { order, points: count.get() })
+}
+
+fn listener_order_exploration(rep: &mut Report, k: usize) {
+    let base = match listener_run(&[]) {
+        Ok(b) => b,
+        Err(e) => {
+            rep.machinery_errors.push(format!("priority listener exploration: {e}"));
+            return;
+        }
+    };
+    let points = base.points.min(40);
+    // all decision vectors over the first `points` switch points with at most k yields
+    let mut vectors: Vec<Vec<bool>> = vec![vec![]];
+    fn gen_vec(out: &mut Vec<Vec<bool>>, cur: &mut Vec<usize>, from: usize, left: usize, n: usize) {
+        if !cur.is_empty() {
+            let mut v = vec![false; n];
+            for i in cur.iter() {
+                v[*i] = true;
+            }
+            out.push(v);
+        }
+        if left == 0 {
+            return;
+        }
+        for i in from..n {
+            cur.push(i);
+            gen_vec(out, cur, i + 1, left - 1, n);
+            cur.pop();
+        }
+    }
+    gen_vec(&mut vectors, &mut Vec::new(), 0, k, points);
+    let mut runs = 0u64;
+    let mut outcomes: BTreeSet<Vec<u64>> = BTreeSet::new();
+    let mut bad: Option<(Vec<bool>, Vec<u64>)> = None;
+    for v in &vectors {
+        runs += 1;
+        match listener_run(v) {
+            Ok(r) => {
+                outcomes.insert(r.order.clone());
+                let mut sorted = r.order.clone();
+                sorted.sort_unstable();
+                if r.order != sorted && bad.is_none() {
+                    // the same decisions must fail the same way once more
+                    if listener_run(v).map(|r2| r2.order != sorted).unwrap_or(false) {
+                        bad = Some((v.clone(), r.order.clone()));
+                    } else {
+                        rep.machinery_errors.push("priority listener exploration: an out-of-order delivery did not reproduce".into());
+                    }
+                }
+                if r.order.len() != 3 && rep.machinery_errors.len() < 2 {
+                    rep.machinery_errors.push(format!("priority listener exploration: {} of 3 events arrived (decisions {:?})", r.order.len(), v.iter().enumerate().filter(|(_, b)| **b).map(|(i, _)| i).collect::<Vec<_>>()));
+                }
+            }
+            Err(e) => {
+                if rep.machinery_errors.len() < 2 {
+                    rep.machinery_errors.push(format!("priority listener exploration: {e}"));
+                }
+            }
+        }
+    }
+    rep.traces += runs;
+    rep.transitions += runs * points as u64;
+    rep.set("priority_listener", json!({"switch_points": base.points, "explored_points": points, "max_yields": k, "decision_vectors": runs, "distinct_orders": outcomes.len()}));
+    if let Some((v, order)) = bad {
+        let at: Vec<usize> = v.iter().enumerate().filter(|(_, b)| **b).map(|(i, _)| i).collect();
+        rep.add_violation(Violation {
+            key: "priority-window-events-out-of-publication-order".into(),
+            message: format!("three priority datagrams (windows 100, 200, 300 ms) sent back to back to the real listener task: the subscriber received {order:?} when the hub's switch points {at:?} yield"),
+            replay: json!({"exploration": "priority-listener", "yields_at": at}),
+        });
+    }
+}
+
 pub fn run(tier: Tier) -> Report {
     let mut rep = Report::new();
+    listener_order_exploration(&mut rep, if tier.is_quick() { 2 } else { 3 });
     // the publish that matters sits in the housekeeping arm of the real loop: with a subscriber that never
     // reads (either topic), every pass still completes
     crate::realx::run_for(&mut rep, "C20", tier.is_quick());
@@ -608,6 +751,17 @@ pub fn run(tier: Tier) -> Report {
 }
 
 pub fn replay(v: &Value) -> Result<(), String> {
+    if v["exploration"] == "priority-listener" {
+        let at: Vec<usize> = v["yields_at"].as_array().map(|a| a.iter().map(|x| x.as_u64().unwrap_or(0) as usize).collect()).unwrap_or_default();
+        let mut dec = vec![false; at.iter().max().map(|m| m + 1).unwrap_or(0)];
+        for i in at {
+            dec[i] = true;
+        }
+        let r = listener_run(&dec).map_err(|e| format!("MACHINERY: {e}"))?;
+        let mut sorted = r.order.clone();
+        sorted.sort_unstable();
+        return if r.order == sorted { Ok(()) } else { Err(format!("[priority-window-events-out-of-publication-order] received {:?}", r.order)) };
+    }
     if let Some(r) = crate::realx::replay_for("C20", v) {
         return r;
     }
